@@ -388,6 +388,9 @@ class MPNLRICollection:
                     # Yield current payload and start new one
                     yield self._attribute_header(self._CODE_MP_REACH_NLRI, len(payload)) + payload
                     payload = header + packed_nlri
+                    # the NLRI carried over has to fit in an attribute of its own too
+                    if self._attr_len(len(payload)) > maximum:
+                        raise RuntimeError('NLRI too large for attribute size limit')
                 else:
                     payload = payload + packed_nlri
 
@@ -436,6 +439,9 @@ class MPNLRICollection:
                 # Yield current payload and start new one
                 yield self._attribute_header(self._CODE_MP_UNREACH_NLRI, len(payload)) + payload
                 payload = header + packed_nlri
+                # the NLRI carried over has to fit in an attribute of its own too
+                if self._attr_len(len(payload)) > maximum:
+                    raise RuntimeError('NLRI too large for attribute size limit')
             else:
                 payload = payload + packed_nlri
 
